@@ -14,7 +14,7 @@ import warnings
 
 from sim import core, peers, refsem
 from sim.core import RunResult
-from sim.c01_session import decls_after, drop_var, _nest
+from sim.c01_session import decls_after, drop_var, _nest, key_arg
 
 ID = "C02"
 TIERS = {"quick": 40000, "thorough": 500000}
@@ -76,7 +76,7 @@ def generate(rng, tier, index):
         for _ in range(rng.choice([0, 1, 1, 2, 3]) if rnd == 0 else rng.choice([0, 1])):
             n = rng.choice([1, 1, 2])
             cs = [refsem.gen_constraint(rng, g, rng.randint(1, budget_hi), witness if len(witness) == len(decls) else None) for _ in range(n)]
-            ops.append({"s": 0, "op": "ensure", "cs": cs, "nest": rng.randint(0, 2)})
+            ops.append({"s": 0, "op": "ensure", "cs": cs, "nest": rng.randint(0, 5)})
         if rnd > 0 and rng.random() < 0.3 and refsem.domain_product(decls) * 2 <= 1024:
             ops.append({"s": 0, "op": "bool_var"})
             decls = decls + [{"t": "b"}]
@@ -91,7 +91,7 @@ def generate(rng, tier, index):
         if ids or rng.random() < 0.2:
             rng.shuffle(ids)
             keys.update(ids)
-            ops.append({"s": 0, "op": "add_key", "ids": ids})
+            ops.append({"s": 0, "op": "add_key", "ids": ids, "form": rng.randint(0, 3)})
         if rng.random() < 0.25:
             ops.append({"s": 0, "op": "find_answer"})
         if rng.random() < 0.2:
@@ -237,7 +237,7 @@ def run(sc) -> RunResult:
                         solver.ensure(*_nest([b.build(c) for c in op["cs"]], op.get("nest", 0)))
                         constraints.extend(op["cs"])
                     elif k == "add_key":
-                        solver.add_answer_key([vars_[i] for i in op["ids"]])
+                        solver.add_answer_key(*key_arg(vars_, op["ids"], op.get("form", 0)))
                         keys.update(op["ids"])
                     elif k == "scribble":
                         vars_[op["id"]].sol = op["val"]
